@@ -399,7 +399,7 @@ func Run(job *wk.Job, w *wk.Worker) error {
 		byName[rt.Name] = i
 	}
 	one := func(c Case, traced, counted bool) {
-		if c.Type == "cycle" {
+		if c.Type == "cycle" || c.Type == "stack-value" {
 			return
 		}
 		holderCase := strings.HasPrefix(c.Type, "H_")
@@ -422,6 +422,8 @@ func Run(job *wk.Job, w *wk.Worker) error {
 			r.cycles(false)
 		} else if c.Type == "after-failure" {
 			r.afterFailure(false)
+		} else if c.Type == "stack-value" {
+			r.stackValues(false)
 		} else {
 			one(c, false, false)
 		}
@@ -470,6 +472,12 @@ func Run(job *wk.Job, w *wk.Worker) error {
 		w.Begin(idx, func() interface{} { return Case{Type: "after-failure"} })
 		w.Nontrivial()
 		r.afterFailure(true)
+	}
+	idx++
+	if w.Mine(idx) {
+		w.Begin(idx, func() interface{} { return Case{Type: "stack-value"} })
+		w.Nontrivial()
+		r.stackValues(true)
 	}
 	return nil
 }
